@@ -50,6 +50,9 @@ def comb_exact(name):
         return lambda p: max(1 - t for t in p)
     if name == "negsum":
         return lambda p: -sum(p)
+    if name.startswith("negwsum:"):
+        w = [Fr(t) for t in name.split(":")[1].split()]
+        return lambda p: -sum(a * b for a, b in zip(w, p))
     raise KeyError(name)
 
 
@@ -62,5 +65,5 @@ def npc_exact(pvalues, distr, name, plus1):
     pv = [Fr(t) for t in pvalues]
     obs = f(pv)
     ge = sum(1 for r in P if f(r) >= obs)
-    amb = sum(1 for r in P if f(r) == obs and r != pv) if name in ("fisher", "negsum") else 0
+    amb = sum(1 for r in P if f(r) == obs and r != pv) if (name in ("fisher", "negsum") or name.startswith("negwsum")) else 0
     return ge, amb
